@@ -130,6 +130,70 @@ Theorem C05_constant_series : forall pw x c n K i al ar bl br,
 Proof. exact constant_series. Qed.
 Print Assumptions C05_constant_series.
 
+(** ======== strategy-level corollaries (closed-form theorems transported through the link theorems) ======== *)
+From TW Require Import Model.RfaSpec Proofs.RfaFinal.
+Definition ymap (a b : Qc) (y : list Qc) : list Qc := map (fun v => a * v + b) y.
+Definition xmap (c d : Qc) (x : list Qc) : list Qc := map (fun v => c * v + d) x.
+(** the averages of the closed forms are the input averages (the virtual intervals repeat the end values) *)
+Theorem C05_avg_is_average : forall x y k, length x = length y -> (k + 1 < length x)%nat ->
+  avg x y (Z.of_nat k + 1) = nthq k y /\
+  avg x y (Z.of_nat k + 2) = nthq (k + 1) y /\
+  avg x y (Z.of_nat k) = nthq (k - 1) y.
+Proof. exact avg_is_average. Qed.
+Print Assumptions C05_avg_is_average.
+
+(** sample i of interval k of the recreated series: bounded on its side, equal to the average on the plateau *)
+Definition sided (x y : list Qc) (n : nat) (k i : nat) (al ar : Z) (v : Qc) : Prop :=
+  ((Z.of_nat i < al)%Z -> between (nthq (k - 1) y) (nthq k y) v) /\
+  ((al <= Z.of_nat i)%Z -> (Z.of_nat i <= Z.of_nat n - ar)%Z -> v = nthq k y) /\
+  ((Z.of_nat n - ar < Z.of_nat i)%Z -> between (nthq k y) (nthq (k + 1) y) v).
+
+Theorem C05_linear_fixed_bounded : forall x y n alpha a k i,
+  (2 <= n)%nat -> (2 <= length x)%nat -> length x = length y -> ssorted x ->
+  (2 * fixed_h n alpha a <= Z.of_nat n)%Z -> (k + 1 < length x)%nat -> (i < n)%nat ->
+  sided x y n k i (fixed_h n alpha a) (fixed_h n alpha a) (nthq (k * n + i) (snd (rfa_linear_fixed x y n alpha a))).
+Proof. exact linear_fixed_bounded. Qed.
+Print Assumptions C05_linear_fixed_bounded.
+
+Theorem C05_exp_fixed_bounded : forall pw x y n alpha beta a k i, PwOk pw -> PwZero pw ->
+  (2 <= n)%nat -> (2 <= length x)%nat -> length x = length y -> ssorted x ->
+  (2 * fixed_h n alpha a <= Z.of_nat n)%Z -> 0 <= beta -> beta <= 1 -> (k + 1 < length x)%nat -> (i < n)%nat ->
+  sided x y n k i (fixed_h n alpha a) (fixed_h n alpha a) (nthq (k * n + i) (snd (rfa_exp_fixed pw x y n alpha beta a))).
+Proof. exact exp_fixed_bounded. Qed.
+Print Assumptions C05_exp_fixed_bounded.
+
+Theorem C05_linear_adaptive_bounded : forall gpow x y n alpha a k i, GpowPos gpow ->
+  (2 <= n)%nat -> (2 <= length x)%nat -> length x = length y -> ssorted x ->
+  (window_a n alpha a <= Z.of_nat n)%Z -> (k + 1 < length x)%nat -> (i < n)%nat ->
+  let w := adaptive_windows gpow (prepare x y n) (window_a n alpha a) in
+  sided x y n k i (nthZ (fst w) (Z.of_nat k + 1)) (nthZ (snd w) (Z.of_nat k + 1))
+        (nthq (k * n + i) (snd (rfa_linear_adaptive gpow x y n alpha a))).
+Proof. exact linear_adaptive_bounded. Qed.
+Print Assumptions C05_linear_adaptive_bounded.
+
+Theorem C05_exp_adaptive_bounded : forall pw gpow x y n alpha beta a k i, PwOk pw -> PwZero pw -> GpowPos gpow ->
+  (2 <= n)%nat -> (2 <= length x)%nat -> length x = length y -> ssorted x ->
+  (window_a n alpha a <= Z.of_nat n)%Z -> 0 <= beta -> beta <= 1 -> (k + 1 < length x)%nat -> (i < n)%nat ->
+  let w := adaptive_windows gpow (prepare x y n) (window_a n alpha a) in
+  sided x y n k i (nthZ (fst w) (Z.of_nat k + 1)) (nthZ (snd w) (Z.of_nat k + 1))
+        (nthq (k * n + i) (snd (rfa_exp_adaptive pw gpow x y n alpha beta a))).
+Proof. exact exp_adaptive_bounded. Qed.
+Print Assumptions C05_exp_adaptive_bounded.
+
+(** at most a - 1 samples of an interval differ from its average: the plateau al <= i <= n - ar has n - al - ar + 1 samples
+    and al + ar <= a (C05_windows_in_range; 2h <= a for the fixed strategies) *)
+Theorem C05_final_sample : forall pw gpow x y n alpha beta a, PwOk pw -> GpowPos gpow ->
+  (2 <= n)%nat -> (2 <= length x)%nat -> length x = length y -> ssorted x ->
+  (window_a n alpha a <= Z.of_nat n)%Z -> 0 <= beta -> beta <= 1 ->
+  let m := length x in
+  let last l := nthq ((m - 1) * n) l in
+  between (nthq (m - 2) y) (nthq (m - 1) y) (last (snd (rfa_linear_fixed x y n alpha a))) /\
+  last (snd (rfa_exp_fixed pw x y n alpha beta a)) = nthq (m - 1) y /\
+  between (nthq (m - 2) y) (nthq (m - 1) y) (last (snd (rfa_linear_adaptive gpow x y n alpha a))) /\
+  last (snd (rfa_exp_adaptive pw gpow x y n alpha beta a)) = nthq (m - 1) y.
+Proof. exact final_sample. Qed.
+Print Assumptions C05_final_sample.
+
 Example C05_example :
   let x := [qz 0; qz 1; qz 3; qz 4] in let y := [qz 2; qz 6; qz 1; qz 3] in
   list_eqb Qc_eqb (snd (rfa_exp_fixed (pw_int 2) x y 8 1 Qc_half None)) (cf_exp_fixed (pw_int 2) x y 8 4 2) &&
